@@ -5,6 +5,7 @@
 package fw
 
 import (
+	"bytes"
 	"crypto/sha256"
 	"encoding/hex"
 	"encoding/json"
@@ -12,6 +13,7 @@ import (
 	"hash/fnv"
 	"math/rand"
 	"os"
+	"os/exec"
 	"path/filepath"
 	"runtime/debug"
 	"strings"
@@ -288,4 +290,55 @@ func LookupSub(name string) func(args []string) int     { return subs[name] }
 func Self() string { p, _ := os.Executable(); return p }
 func SelfRace() string {
 	return os.Getenv("VERIF_CHILD_RACE")
+}
+
+// SubResult is what a worker sub-process left behind.
+type SubResult struct {
+	Stdout   []byte
+	Stderr   string
+	Exit     int
+	TimedOut bool
+	Err      error
+}
+
+// RunSub runs the current child binary (or bin, if given) with a sub-command under a wall-clock
+// watchdog. Output goes to files (pipes lose goroutine dumps). A timeout is reported, never judged.
+func RunSub(bin string, timeoutS int, env []string, dir string, args ...string) SubResult {
+	if bin == "" {
+		bin = Self()
+	}
+	of, _ := os.CreateTemp(dir, "sub-out-*")
+	ef, _ := os.CreateTemp(dir, "sub-err-*")
+	defer os.Remove(of.Name())
+	defer os.Remove(ef.Name())
+	full := append([]string{"-s", "QUIT", "-k", "5", fmt.Sprint(timeoutS), bin}, args...)
+	cmd := exec.Command("timeout", full...)
+	cmd.Stdout = of
+	cmd.Stderr = ef
+	cmd.Env = append(os.Environ(), env...)
+	err := cmd.Run()
+	of.Close()
+	ef.Close()
+	res := SubResult{Err: err}
+	res.Stdout, _ = os.ReadFile(of.Name())
+	eb, _ := os.ReadFile(ef.Name())
+	if len(eb) > 8000 {
+		if i := bytes.Index(eb, []byte("panic: ")); i >= 0 && len(eb)-i > 8000 {
+			eb = eb[i : i+8000]
+		} else if i >= 0 {
+			eb = eb[i:]
+		} else {
+			eb = eb[len(eb)-8000:]
+		}
+	}
+	res.Stderr = string(eb)
+	if ee, ok := err.(*exec.ExitError); ok {
+		res.Exit = ee.ExitCode()
+		if res.Exit == 124 || res.Exit == 137 {
+			res.TimedOut = true
+		}
+	} else if err != nil {
+		res.Exit = -1
+	}
+	return res
 }
